@@ -14,6 +14,7 @@ while [ "$s" -le "$b" ]; do
     rc=$?
     if [ "$rc" != "0" ]; then bad=$((bad + 1)); echo "seed=$s $id rc=$rc"; grep '^VIOLATION' "$out/$id-$s.log" | cut -c1-600; fi
   done
+  echo "seed=$s complete ($(echo $ids | wc -w) checks)"
   s=$((s + 1))
 done
 echo "sweep done: tier=$tier seeds=$a..$b nonzero_exits=$bad"
